@@ -290,6 +290,8 @@ class Engine:
         if owner is None:
             raise OutOfSubset('unknown field %s.%s' % (cls, field))
         k = (owner, field)
+        if isinstance(self.m.classes[owner][field], TObj):
+            raise OutOfSubset('read of opaque field %s.%s' % (owner, field))
         if k not in st.heap:
             t = self.m.classes[owner][field]
             st.heap[k] = z3.Const(fresh_name('H_%s_%s' % (owner, field)),
@@ -322,6 +324,9 @@ class Engine:
         return v
 
     def write_field(self, st, ref, field, val):
+        owner = self.field_owner(ref.t.cls, field)
+        if owner is not None and isinstance(self.m.classes[owner][field], TObj):
+            return      # opaque field (not encoded): the write itself is still frame-checked
         k, arr, t = self.heap_arr(st, ref.t.cls, field)
         val = self.coerce(val, t)
         st.heap[k] = z3.Store(arr, ref.e, val.e)
@@ -665,6 +670,15 @@ class Engine:
                 if snap is None:
                     raise OutOfSubset('at_loop(%d) outside that loop' % node.args[0].value, node)
                 return self.sev(node.args[1], SpecEnv(snap, env.extra, env.old))
+            if name == 'is_fresh':
+                # allocated by the call / function whose contract this is (not before it)
+                v = self.sev(node.args[0], env)
+                if isinstance(v.t, TOpt):
+                    return mk_bool(z3.Or(opt_is_none(v), opt_val(v).e >= env.old.alloc))
+                return mk_bool(v.e >= env.old.alloc)
+            if name == 'allocated':
+                v = self.sev(node.args[0], env)
+                return mk_bool(z3.And(v.e >= 0, v.e < st.alloc))
             if name == 'is_none':
                 v = self.sev(node.args[0], env)
                 return mk_bool(self.equal(v, NONE_VAL))
